@@ -346,6 +346,22 @@ def classify(b):
     return None
 
 
+def known_winding_case(out):
+    """F27 (open): the fixed field on which the finding was made (the smooth 2-D base field of seed 3), whatever the seed
+    of this run: one cluster winds around the box, and the droplet count differs between the shifts 0 and 7 along axis 1"""
+    name, shape, dx, per, data = base_fields(6)[1]
+    thr = (float(data.min()) + float(data.max())) / 2
+    if not has_winding_cluster(data > thr, per):
+        raise core.MachineryError("the field of finding F27 has no winding cluster any more")
+    v0 = measure(make_field(shape, dx, data, 0, per), "droplet_detection")
+    v7 = measure(make_field(shape, dx, np.roll(data, 7, axis=1), 0, per), "droplet_detection")
+    out.evaluations += 1
+    if v0 != v7:
+        out.violation({"winding_cluster_field": {"base_field_seed": 6, "shape": list(shape), "dx": dx},
+                       "fails": [f"smooth2d/droplet_detection: {v7!r} after a shift by 7 cells along axis 1, {v0!r} before"]},
+                      signature="droplet-count-winding-cluster")
+
+
 def run(out: core.Outcome) -> None:
     import multiprocessing as mp
 
@@ -387,6 +403,7 @@ def run(out: core.Outcome) -> None:
         out.nontrivial_count += sum(1 for _, rec in items if rec["word"] or rec["wave"]["shape"])
         out.parts[name].update(cases=len(items), mismatches=nbad)
         out.sample({"config": name, "case": r.printed[len(r.printed) // 2]}, limit=2)
+    known_winding_case(out)
     cnt, fails = check_translates(out.seed)
     out.evaluations += cnt
     out.parts["translates"] = {"images_times_shifts": cnt}
